@@ -174,8 +174,9 @@ def fetch (c : Codec) (o : UpOut) (f : Fetch) : Option Bytes :=
       let (rep, gz) := serverGet c o.stored true
       if gz then c.gunzip rep else some rep
     | .range off size =>
-      -- Range: bytes=off-(off+size-1), no Accept-Encoding (range semantics: C32)
+      -- Range: bytes=off-(off+size-1), no Accept-Encoding (range semantics: C32; after the parseRange `fix:` commits a
+      -- first-byte-pos AT the end is unsatisfiable too: 416)
       let (rep, _) := serverGet c o.stored false
-      if size = 0 ∨ off > rep.length then none else some ((rep.drop off).take size)
+      if size = 0 ∨ off ≥ rep.length then none else some ((rep.drop off).take size)
 
 end SwV.Model.C33
